@@ -231,6 +231,7 @@ def run_tasks(args, jobs, deadline_s):
     pending = list(enumerate(args))
     running = {}
     results = [None] * len(args)
+    attempts = {}
     while pending or running:
         while pending and len(running) < jobs:
             i, a = pending.pop(0)
@@ -238,6 +239,7 @@ def run_tasks(args, jobs, deadline_s):
             p = ctxm.Process(target=_child, args=(child, a))
             p.start()
             child.close()
+            attempts[i] = attempts.get(i, 0) + 1
             running[i] = (p, parent, time.time(), a)
         progressed = False
         for i, (p, conn, t0, a) in list(running.items()):
@@ -253,12 +255,19 @@ def run_tasks(args, jobs, deadline_s):
                 results[i] = _lost(a, "worker died (exit code %s)" % p.exitcode)
                 del running[i]
                 progressed = True
-            elif time.time() - t0 > deadline_s:
+            elif time.time() - t0 > (deadline_s if attempts[i] > 1 else deadline_s / 2.0):
+                # first attempt: half the deadline, then one fresh attempt with the full one (a
+                # z3 call that ignores its timeout was seen once in ~10^3 runs of a task that
+                # normally takes seconds, on an overloaded machine; it did not recur).  A retry
+                # can only turn "undecided" into a verdict the solver actually reached.
                 p.kill()
                 p.join(5)
-                results[i] = _lost(a, "hard deadline of %d s reached (solver call ignoring its timeout); not decided" % deadline_s)
                 del running[i]
                 progressed = True
+                if attempts[i] == 1:
+                    pending.append((i, a))
+                else:
+                    results[i] = _lost(a, "hard deadline of %d s reached twice (solver call ignoring its timeout); not decided" % deadline_s)
         if not progressed:
             time.sleep(0.05)
     return results
